@@ -242,6 +242,9 @@ func (r *replayer) run(dir string, cases []replayCase) ([]replayResult, error) {
 	cmd.Dir = filepath.Join(r.cfg.Repo, dir)
 	cmd.Env = append(os.Environ(), "VERIF_REPLAY="+in, "VERIF_REPLAY_OUT="+out)
 	o, err := cmd.CombinedOutput()
+	if os.Getenv("VERIF_DEBUG") != "" {
+		os.Stderr.Write(o)
+	}
 	rb, rerr := os.ReadFile(out)
 	if rerr != nil {
 		return nil, fmt.Errorf("replay run failed: %v\n%s", err, o)
@@ -685,4 +688,49 @@ func solverVersion(cfg *Config) string {
 		return k
 	}
 	return strings.TrimSpace(string(o))
+}
+
+// ReplayFile re-runs a recorded counterexample natively against cfg.Repo with the harness overlay and VERIF_DEBUG set,
+// and prints the native outcome.
+func ReplayFile(cfg *Config, file string) int {
+	var rec struct {
+		Harness string            `json:"harness"`
+		Package string            `json:"package"`
+		Values  map[string]string `json:"values"`
+		Choices []int             `json:"choices"`
+		Tier    int               `json:"tier"`
+		Assert  string            `json:"assert"`
+	}
+	b, err := os.ReadFile(file)
+	if err != nil {
+		fmt.Fprintln(os.Stderr, err)
+		return 2
+	}
+	if err := json.Unmarshal(b, &rec); err != nil {
+		fmt.Fprintln(os.Stderr, err)
+		return 2
+	}
+	tmp, err := os.MkdirTemp("", "symgo-replay-")
+	if err != nil {
+		return 2
+	}
+	defer os.RemoveAll(tmp)
+	_, real, err := buildOverlay(cfg, []string{rec.Package}, tmp)
+	if err != nil {
+		fmt.Fprintln(os.Stderr, err)
+		return 2
+	}
+	l := &loaded{overlay: real, tmp: tmp}
+	rp := &replayer{cfg: cfg, l: l, bins: map[string]string{}}
+	os.Setenv("VERIF_DEBUG", "1")
+	res, err := rp.run(rec.Package, []replayCase{{Harness: rec.Harness, Values: rec.Values, Choices: rec.Choices, Tier: rec.Tier, Repeat: 1}})
+	if err != nil {
+		fmt.Fprintln(os.Stderr, err)
+		return 2
+	}
+	fmt.Printf("harness=%s assert=%s native: failed=%v panic=%q diverged=%q\n", rec.Harness, rec.Assert, res[0].Failed, res[0].Panic, res[0].Diverged)
+	if len(res[0].Failed) > 0 || res[0].Panic != "" {
+		return 1
+	}
+	return 0
 }
